@@ -10,7 +10,10 @@ CRATE = 'simple-dns'
 def tasks(tier, params):
     lmax = params.get('L_thorough', 8) if tier == 'thorough' else params.get('L_quick', 6)
     n = params.get('N_thorough', 12) if tier == 'thorough' else params.get('N_quick', 8)
-    out = [('L%d' % L, {'L': L, 'N': n, 'mode': params.get('mode', 'equiv')}) for L in range(0, lmax + 1)]
+    # loop bound N = max(8/12, L+3).  A path that reaches it is examined: legal pointer cycles re-read labels and therefore
+    # increase name_size (they stop at the 255-octet budget); at most L strictly-backwards hops fit between two label steps,
+    # so a path whose last L+2 loop-head visits left name_size unchanged makes no progress and is a termination violation
+    out = [('L%d' % L, {'L': L, 'N': max(n, L + 3), 'mode': params.get('mode', 'equiv')}) for L in range(0, lmax + 1)]
     if params.get('mode', 'equiv') == 'equiv':
         for k, (lay, start) in enumerate(big_layouts()):
             out.append(('big%d' % k, {'L': len(lay), 'N': 140, 'mode': 'equiv', 'layout': lay, 'start': start}))
@@ -125,6 +128,8 @@ def run_task(prog, tid, params, tier):
         if not pos0.concrete:
             I.ctx.assume(z3.ULE(pos0.z(), L))
         cell = Cell(pos0, 'pos')
+        from .name_step import find_loop_head, local_of
+        I.watch = (f, find_loop_head(f), local_of(f, 'name_size'))
         r = I.call_function(f, [buf, Ref(cell)], {})
         I.real = (r, cell.v)
         if mode == 'equiv':
@@ -142,6 +147,12 @@ def run_task(prog, tid, params, tier):
         I = res.interp
         if res.kind == 'panic':
             return cex(res, 'Name::parse panics: ' + res.msg, {'outcome': 'panic'})
+        if res.kind == 'bound' and 'layout' not in params:
+            log = [v for v in res.interp.watch_log if isinstance(v, Sc)]
+            tail = log[-(L + 2):]
+            if len(tail) == L + 2 and not res.ctx.check(tail[0].z() != tail[-1].z()):
+                return cex(res, 'Name::parse makes no progress: name_size unchanged over %d loop iterations (pointer cycle, %s)'
+                           % (L + 2, res.msg), {'outcome': 'hang'})
         if res.kind != 'return':
             return None
         r, endpos = I.real
